@@ -347,7 +347,13 @@ def run_construct_case(case):
     out = []
     subs = {}
     for j, (lags, leads, lo, extra) in enumerate(specs):
-        subs['s%d' % j] = lagged_class(lags, leads)(range(lo, lo + n + extra))
+        if lo == 'irregular':
+            # same length, same first and last label as range(0, n + extra), another label in between
+            labels = list(range(0, n + extra))
+            labels[2] = 2.5
+            subs['s%d' % j] = lagged_class(lags, leads)(labels)
+        else:
+            subs['s%d' % j] = lagged_class(lags, leads)(range(lo, lo + n + extra))
     differing = len({(lo, extra) for _, _, lo, extra in specs}) > 1
     n = n + (specs[0][3] if specs else 0)
     try:
@@ -367,9 +373,10 @@ def run_construct_case(case):
         r = refsolve.call_outcome(lk.solve, max_iter=2)
         if r[0] == 'value':
             labels = list(r[2][0])
-            lo = specs[0][2]
-            if labels != list(range(lo + want[0], lo + n - want[1])):
-                out.append(('construct:default-range', list(range(lo + want[0], lo + n - want[1])), labels, 'default solve range of the linker'))
+            full = list(subs['s0'].span)
+            expected = full[want[0]:len(full) - want[1]]
+            if labels != expected:
+                out.append(('construct:default-range', expected, labels, 'default solve range of the linker'))
         elif want[0] + want[1] < n:
             out.append(('construct:solve-failed', 'solve() ok', r[0], 'linker solve() failed'))
     return out
@@ -381,7 +388,7 @@ def run_construct(acc, tier):
     for k in range(0, 4):
         for combo in itertools.product(ll, repeat=k):
             # spans differ by where they start and/or by how long they are (same start, one span a prefix of the other)
-            for los in itertools.product(((0, 0), (1, 0), (0, 1), (0, -2)), repeat=k):
+            for los in itertools.product(((0, 0), (1, 0), (0, 1), (0, -2), ('irregular', 0)), repeat=k):
                 specs = [(a, b, lo, extra) for (a, b), (lo, extra) in zip(combo, los)]
                 case = {'kind': 'construct', 'specs': specs, 'n': n}
                 acc.evaluations += 1
@@ -410,6 +417,13 @@ class OffLk(BaseLinker):
     NAMES = ['L', 'M', 'Z']
     CHECK = ['L']
 
+    def solve_t_before(self, t, **kw):
+        # (optional) the pre-solution hook writes endogenous values of the linker and of a submodel: as for a single model the
+        # offset copy comes first, so what the hook writes is what the first pass sees
+        if self.__dict__.get('hook_writes'):
+            self._L[t] = 555.0
+            self.submodels['a']._A[t] = 777.0
+
     def evaluate_t_before(self, t, **kw):
         self.__dict__.setdefault('seen', []).append((float(self._L[t]), float(self._Z[t])))
         self.__dict__.setdefault('seen_m', []).append(float(self._M[t]))
@@ -422,11 +436,14 @@ def run_offset_case(case):
     lk = OffLk(subs, L=[1000.0 + i for i in range(n)], Z=[2000.0 + i for i in range(n)], M=[3000.0 + i for i in range(n)])
     init = observe(lk)
     sel = case['sel']
+    if case.get('hook'):
+        lk.__dict__['hook_writes'] = True
     res, cause, _ = refsolve.call_outcome(lk.solve_t, t, submodels=sel, offset=offset, max_iter=2, tol=0.5)
     pos = t % n
     src = pos + offset
     out = []
     if not (0 <= src < n):
+        lk.__dict__.pop('hook_writes', None)
         if res != 'IndexError' or observe(lk) != init:
             out.append(('offset:out-of-span', 'IndexError, unchanged', [res, diff_obs(init, observe(lk))[:2]], 'offset outside the span must be rejected as for a single model'))
         return out
@@ -440,8 +457,12 @@ def run_offset_case(case):
         else:
             exp[k] = 10.0 * (j + 1) + pos
             obs[k] = float(subs[k].A[pos])
+    if case.get('hook'):
+        exp['linker'] = (555.0, 2000.0 + pos)
+        exp['a'] = (777.0, 100.0 + pos) if 'a' in seld else 777.0
     if exp != obs:
-        out.append(('offset:seed', exp, obs, 'a non-zero offset must seed period t from t+offset (linker and selected submodels)'))
+        out.append(('offset:seed' + (':hook-writes' if case.get('hook') else ''), exp, obs, 'a non-zero offset must seed period t from t+offset (linker and selected submodels)' +
+                    (' before the pre-solution hook runs' if case.get('hook') else '')))
     return out
 
 
@@ -452,12 +473,13 @@ def run_offset(acc, tier):
             if offset == 0:
                 continue
             for sel in (None, ['b'], ['b', 'a']):
-                case = {'kind': 'offset', 't': t, 'offset': offset, 'sel': sel}
-                acc.evaluations += 1
-                acc.nontrivial += 1
-                acc.transitions += 1
-                for key, exp, obs, what in run_offset_case(case):
-                    acc.violation(key, case, exp, obs, what)
+                for hook in (False, True):
+                    case = {'kind': 'offset', 't': t, 'offset': offset, 'sel': sel, 'hook': hook}
+                    acc.evaluations += 1
+                    acc.nontrivial += 1
+                    acc.transitions += 1
+                    for key, exp, obs, what in run_offset_case(case):
+                        acc.violation(key, case, exp, obs, what)
 
 
 @robust()
